@@ -250,7 +250,7 @@ func genQuery(r *Rng, t *TableDef, u *Universe, o QGenOpts) *QSpec {
 				q.GroupBy = []string{"_"}
 			}
 		}
-		if r.Bool(0.1) {
+		if r.Bool(0.1) && q.GroupBy[0] != "*" && q.GroupBy[0] != "_" {
 			q.GroupBy = append(q.GroupBy, "CONCAT('|', da, db) AS dx")
 		}
 		if r.Bool(0.5) {
